@@ -126,7 +126,7 @@ def run_case(case, judge="c09"):
                                                   "huge", "-huge"]))}]
         spec["options"]["target"] = float(rng.choice(
             [math.inf, 1e35, 1e250, 2.0 ** 100, -2.0 ** 100, -1e35,
-             -1e250]))
+             -1e250, -50.0, 0.5, 50.0, 1e6]))
         spec["options"]["maxfev"] = int(rng.integers(15, 40))
         rec = mrun.run(spec)
         counts = e2e.base_counts(rec)
